@@ -24,7 +24,7 @@ def run(ctx):
     from pgpy.types import Header as _BH, MetaDispatchable as _MD
     from pgpy.packet.types import Header as _H, Packet as _P, VersionedHeader as _VH, Opaque as _O
     _objs = {'types.Header.length_bin': _BH.length_bin, 'packet.Header.parse': _H.parse, 'VersionedHeader.parse': _VH.parse, 'MetaDispatchable.__call__': _MD.__call__, 'Packet.update_hlen': _P.update_hlen, 'Opaque.parse': _O.parse}
-    _S.check_pins(ctx, [(k, _objs[k], v) for k, v in {'types.Header.length_bin': '377b05380a964da6', 'packet.Header.parse': '24ff130f0ca424d2'}.items()])
+    _S.check_pins(ctx, [(k, _objs[k], v) for k, v in {'types.Header.length_bin': '377b05380a964da6', 'packet.Header.parse': '06d846c3c0c27e8f'}.items()])
     d = Driver('c09')
     try:
         _run(ctx, d, BaseHeader, Header, MPI, SubHeader, String2Key, PubKeyV4, CreationTime)
